@@ -19,9 +19,11 @@ RULE = ("pairs of MRSs: a generated well-formed (or mildly ill-formed: self-argu
 EXHAUSTIVE = {"quick": False, "thorough": False}
 EXPLANATION = ("Proved: the bag partition and the self-comparison law for any matcher; for the VF2 search, that "
                "a returned mapping covers the second graph and consists of feasible pairs with equal labels, "
-               "self-loop data, degree and edge consistency against older pairs. Full soundness w.r.t. the "
-               "original (un-augmented) graphs and completeness are checked against an exhaustive bijection "
-               "oracle, not proved.")
+               "self-loop data, degree and edge consistency against older pairs; and completeness of the search: "
+               "on isomorphic well-formed (augmented) graphs it always returns a mapping whose domain is the node "
+               "set of the first graph, whatever the candidate order and pruning (C06_vf2_complete), hence "
+               "reflexivity. Full soundness w.r.t. the original (un-augmented) graphs is checked against an "
+               "exhaustive bijection oracle, not proved.")
 ASSUMPTIONS = [
     "predicates in the modelled class are already normalised (lower-case, no _rel suffix, no quotes)",
     "structures without parallel constraints (an hcons/icons edge may overwrite an argument edge in the graph)",
@@ -30,13 +32,13 @@ ASSUMPTIONS = [
 TRUSTED = []
 LEVEL_TEXT = ("Proof (Coq, no axioms) of the bag laws (unique-test + shared = |test|, shared + unique-gold = "
               "|gold| for any matcher; a bag against itself under a reflexive matcher is entirely shared) and of "
-              "partial soundness of the modelled VF2 search (see explanation). The verdict of is_isomorphic and the "
+              "partial soundness and of completeness of the modelled VF2 search (see explanation). The verdict of is_isomorphic and the "
               "counts of compare_bags are tied to delphin by kernel-checked correspondence; exactness (sound and "
               "complete) is decided on every generated pair by an independent exhaustive bijection oracle.")
-LEVEL_NOTE = ("Partial: soundness w.r.t. the un-augmented graphs and completeness of the search are not theorems. "
+LEVEL_NOTE = ("Partial: soundness w.r.t. the un-augmented graphs is not a theorem (completeness of the search is). "
               "Three genuine defects (F6 self loops, F22 two-way links, F23 properties skipped on EPs with a "
               "constant) were repaired by fix: commits; the model follows the repaired code.")
-TECHNIQUE = "Coq proof (bag laws, partial VF2 soundness) + kernel-checked correspondence + exhaustive bijection oracle"
+TECHNIQUE = "Coq proof (bag laws, VF2 completeness and partial soundness) + kernel-checked correspondence + exhaustive bijection oracle"
 DESIGN_REF = "DESIGN.md section 6, C06"
 
 
